@@ -239,7 +239,7 @@ def main(tier):
         ob.result = rr; check.obligations.append(ob)
     if not orders:
         check.inconclusive.append(f'schedule: the registered ordering constraints {constraints} admit no order'); orders = [('chain', 'select', 'animate')]
-    for order, cmap in itertools.product(orders, ({}, {1: 2})):
+    for order, cmap, init in itertools.product(orders, ({}, {1: 2}), ('fresh', 'playing-old')):
         for new_key in (1, 2, 3):
             world = World(); ecs = Ecs(prog, enums, world, tls)
             m = Machine(prog, enums, overrides=ecs.overrides()); m.duration_mode = 'uf'
@@ -248,8 +248,15 @@ def main(tier):
                 world.entities = []; tls.fapps = []
                 m.assume(z3.And(z3.ULE(d1, z3.BitVecVal(2 ** 64, 128)), z3.ULE(d2, z3.BitVecVal(2 ** 64, 128))))
                 for k_ in (1, 2): [m.assume(c) for c in tls.valid(k_)]
+                if init == 'fresh':
+                    a0 = animator_val(z3.BoolVal(True), z3.BitVecVal(0, 128), None, 0)
+                else:
+                    # the animator is in the middle of playing the previous key's timeline when the key changes
+                    for c_ in tls.valid(9): m.assume(c_)
+                    p9 = z3.BitVec('old_pos', 128); m.assume(z3.ULE(p9, z3.BitVecVal(1 << 70, 128)))
+                    a0 = animator_val(z3.BoolVal(True), p9, tls.tl(9, z3.FP('old_tl_start', F32)), 2)
                 ent = world.add({'T': Agg('T', [Sc('f32', x0)]), 'AnimationSelector': selector_val(tls, 0, some(key(0))), 'AnimationChain': chain_val(cmap),
-                                 'Animator': animator_val(z3.BoolVal(True), z3.BitVecVal(0, 128), None, 0)})
+                                 'Animator': a0})
                 ent['changed'] = set()
                 # the user assigns a new key (through DerefMut: change detection fires)
                 ent['comps']['AnimationSelector'].v.f[1] = key(new_key); ent['changed'].add('AnimationSelector')
@@ -275,12 +282,12 @@ def main(tier):
                 (c1, a1), (c2, a2) = r.value
                 ax = [z3.Implies(z3.fpIsZero(t), val == v) for val, v, t, k in tls.fapps]       # L-tl: F(v, 0) = v
                 ax.append(c18.S_AS(z3.BitVecVal(0, 128)) == fpv32(0.0))
-                mk_result(check.obligations, f'C19.frames[{"/".join(order)},chain={cmap},key={KEYS[new_key]}].no-jump-in-the-key-change-frame',
+                mk_result(check.obligations, f'C19.frames[{"/".join(order)},chain={cmap},{init},key={KEYS[new_key]}].no-jump-in-the-key-change-frame',
                           'in the frame in which the key changes the component keeps its value (the new timeline is blended from it and evaluated at position 0 at the earliest)',
                           r.pc, ax, c1.f[0].t == x0)
                 if new_key in WITH_TL and not cmap:
                     tl_ok = isinstance(a2.f[2].d, int) and a2.f[2].d == 1 and z3.simplify(m.load(a2.f[2].p[1][0]).f[0].t).as_long() == WITH_TL[new_key]
-                    mk_result(check.obligations, f'C19.frames[{"/".join(order)},chain={cmap},key={KEYS[new_key]}].plays-the-new-timeline',
+                    mk_result(check.obligations, f'C19.frames[{"/".join(order)},chain={cmap},{init},key={KEYS[new_key]}].plays-the-new-timeline',
                               'after the key change the animator plays that key\'s timeline (position = time since the change)', r.pc, ax,
                               z3.And(z3.BoolVal(bool(tl_ok)), a2.f[1].f[0].t == d1 + d2 if False else z3.BoolVal(bool(tl_ok))))
     check.transitions = len(check.obligations)
